@@ -15,7 +15,7 @@ macro "safe_simp" : tactic => `(tactic|
   (simp (disch := omega) only [idx_eq, rd16_eq, bytes_eq, from_eq, copyOut_eq, Res.bind_ok, Res.bind_err,
       Slice.len, Nat.reduceAdd, reduceCtorEq, ne_eq, not_false_eq_true, and_self, if_true, if_false, ↓reduceIte, *]))
 
-macro "safe" : tactic => `(tactic| (refine ⟨?_, ?_⟩ <;> repeat' (first | safe_simp | split_ifs | (simp_all; done))))
+macro "safe" : tactic => `(tactic| ((try dsimp only); refine ⟨?_, ?_⟩ <;> repeat' (first | safe_simp | split_ifs | (simp_all; done))))
 
 /-- the header conditions other than the minimum length -/
 def MBAPrest (v : Bytes) : Prop :=
@@ -31,7 +31,6 @@ theorem parseMBAP_eq (v sp : Bytes) :
       if v.length < 7 then .err (.tcp 4 0 0 0) else
       if MBAPrest v then .ok (be16 (v.getD 0 0) (v.getD 1 0)) else .err (.tcp 4 0 0 0) := by
   unfold parseMBAP MBAPrest
-  simp only [Slice.len]
   by_cases h6 : v.length < 6
   · have : v.length < 7 := by omega
     simp [h6, this]
@@ -74,6 +73,7 @@ theorem safe_sidReqTCP : SpareSafe parseSidReqTCP := by
   intro v sp; unfold parseSidReqTCP; simp only [parseMBAP_eq]; safe
 theorem safe_sidReqRTU : SpareSafe parseSidReqRTU := by
   intro v sp; unfold parseSidReqRTU; safe
+set_option maxHeartbeats 1000000 in
 theorem safe_rwReqTCP : SpareSafe parseRWReqTCP := by
   intro v sp; unfold parseRWReqTCP; simp only [parseMBAP_eq]; safe
 theorem safe_rwReqRTU : SpareSafe parseRWReqRTU := by
@@ -114,7 +114,6 @@ theorem safe_reqRTUfc (fc : UInt8) : SpareSafe (parseReqRTUfc fc) := by
 theorem safe_parseTCPRequest : SpareSafe parseTCPRequest := by
   intro v sp
   unfold parseTCPRequest
-  simp only [Slice.len]
   by_cases h : v.length < 8
   · simp [h]
   · simp (disch := omega) only [h, if_false, idx_eq, Res.bind_ok]
@@ -123,7 +122,6 @@ theorem safe_parseTCPRequest : SpareSafe parseTCPRequest := by
 theorem safe_parseRTURequest : SpareSafe parseRTURequest := by
   intro v sp
   unfold parseRTURequest
-  simp only [Slice.len]
   by_cases h : v.length < 4
   · simp [h]
   · simp (disch := omega) only [h, if_false, idx_eq, Res.bind_ok]
@@ -132,7 +130,6 @@ theorem safe_parseRTURequest : SpareSafe parseRTURequest := by
 theorem safe_parseRTURequestWithCRC : SpareSafe parseRTURequestWithCRC := by
   intro v sp
   unfold parseRTURequestWithCRC
-  simp only [Slice.len]
   by_cases h : v.length < 4
   · simp [h]
   · by_cases hc : crcMatches v = true
@@ -212,7 +209,6 @@ open Modbus Modbus.Model
 theorem safe_parseTCPResponse : SpareSafe parseTCPResponse := by
   intro v sp
   unfold parseTCPResponse
-  simp only [Slice.len]
   by_cases h : v.length < 8
   · simp [h]
   · simp only [h, if_false]
@@ -231,7 +227,6 @@ theorem safe_parseTCPResponse : SpareSafe parseTCPResponse := by
 theorem safe_parseRTUResponse : SpareSafe parseRTUResponse := by
   intro v sp
   unfold parseRTUResponse
-  simp only [Slice.len]
   by_cases h : v.length < 4
   · simp [h]
   · simp only [h, if_false]
@@ -250,7 +245,6 @@ theorem safe_parseRTUResponse : SpareSafe parseRTUResponse := by
 theorem safe_parseRTUResponseWithCRC : SpareSafe parseRTUResponseWithCRC := by
   intro v sp
   unfold parseRTUResponseWithCRC
-  simp only [Slice.len]
   by_cases h : v.length < 4
   · simp [h]
   · by_cases hc : crcMatches v = true
